@@ -208,7 +208,8 @@ Print Assumptions C02_chains_are_followed_to_their_end.
    satisfies the invariant (cache within the store, memo within the cycles of the schema graph: whatever was expanded
    before), every fuel, AbsoluteCircularRef on or off, strict mode, schemas not skipped: when ExpandSpec returns, what it
    returns is [spec_rel]-related to the input: section by section, entry by entry, the same names in the same order, each
-   definition bisimilar to the input's, each parameter / response the end of its chain with a bisimilar schema, each path
+   definition a [sound_schema] for the input's (bisimilar to it, and every `$ref` left in it the rendering of a reference on
+   a cycle: the C03 half), each parameter / response the end of its chain with a sound schema, each path
    item the end of its chain with its parameters and operations replaced likewise, vendor extensions and everything else
    untouched; and the invariant holds again. *)
 Theorem C02_expand_spec_preserves_meaning : forall E docs cwd OP ctx_base rid nodes enodes bad0 ranks live,
@@ -222,7 +223,7 @@ Theorem C02_expand_spec_preserves_meaning : forall E docs cwd OP ctx_base rid no
   check_root ctx_base nodes enodes bad0 m = true ->
   Inv2 E docs cwd rid (GN nodes) bad0 s -> Coh cwd (Some root_url) ctx_base ->
   expand_spec E docs cwd OP ctx_base live d root_url (JObj m) s = Done (s', out) ->
-  Inv2 E docs cwd rid (GN nodes) bad0 s' /\ spec_rel E docs cwd ctx_base m out.
+  Inv2 E docs cwd rid (GN nodes) bad0 s' /\ spec_rel E docs cwd ctx_base (sound_schema E docs cwd OP ctx_base rid nodes bad0) m out.
 Proof.
   intros E docs cwd OP ctx_base rid nodes enodes bad0 ranks live Hlive Hstrict Hskip Hck Hcke Hckc Hckp d root_url m s s' out Hroot Hs Hcoh H.
   exact (checked_spec_sim E docs cwd OP ctx_base rid nodes enodes bad0 ranks live Hlive Hstrict Hskip Hck Hcke Hckc Hckp d (S d) root_url m s s' out Hroot Hs Hcoh H).
@@ -235,7 +236,7 @@ Print Assumptions C02_expand_spec_preserves_meaning.
    returns from the initial state, and its result is related to the input *)
 Example C02_spec_example : forall abs,
   exists s' out, expand_spec gen_env sp_docs "/" (mkOpts false false abs) sp_root_url sp_live 12 sp_root_url (JObj sp_members) ex_s0 = Done (s', out)
-                 /\ spec_rel gen_env sp_docs "/" sp_root_url sp_members out.
+                 /\ spec_rel gen_env sp_docs "/" sp_root_url (sound_schema gen_env sp_docs "/" (mkOpts false false abs) sp_root_url "" sp_nodes sp_bad0) sp_members out.
 Proof.
   intros abs. set (OP := mkOpts false false abs).
   assert (Hck : check_nodes gen_env sp_docs "/" OP sp_root_url "" sp_nodes = true) by (destruct abs; vm_compute; reflexivity).
